@@ -92,7 +92,10 @@ def run(ctx):
             continue
         ok2, ok3, w2, w3 = True, True, "", ""
         for p in cps:
-            outs = [e for e in p.calls() if e["callee"] in PRINT_FNS or (e["callee"] in cg.nodes and e["callee"] in allowed)]
+            # output calls: a print macro's runtime call, or a call of a function from which one is reachable
+            # (events walked into from an inlined helper are the helper's own calls: counted there, not twice)
+            outs = [e for e in p.calls() if not e.get("inlined") and (
+                e["callee"] in PRINT_FNS or (e["callee"] in cg.nodes and e["callee"] in allowed and (cg.reach([e["callee"]]) & direct)))]
             if not outs:
                 ok2, w2 = False, "cell `%s` produces no output on some path" % c
                 continue
